@@ -876,7 +876,7 @@ def views_ir(rng):
         return "%s%d" % (p, uid[0])
 
     def owner_block():
-        kind = rng.choice(["var", "reg", "HT", "HA", "HA", "H1"])
+        kind = rng.choice(["var", "reg", "HT", "HA", "HA", "H1", "HDT", "HTS"])
         body = []
         if kind == "var":
             n = fresh("t")
@@ -888,9 +888,16 @@ def views_ir(rng):
             refs, whole = [("e", n, i, "c") for i in range(size)], ("reg", n, None)
         else:
             n = fresh("o")
-            body.append(dict(k="new", name=n, cls=kind, via=rng.choice(["new", "func"])))
-            if kind == "HT":
+            body.append(dict(k="new", name=n, cls=kind, via=rng.choice(["new", "func"]) if kind in ("H1", "HT", "HA") else "new"))
+            if kind in ("HT", "HTS"):
                 refs, whole = [("f", n, "tq")], None
+            elif kind == "HDT":
+                # measured by its own destructor only: the tracked record must show that last outcome
+                if rng.random() < 0.5:
+                    body.append(dict(k="gate", g="x", via="direct", qs=[("f", n, "dt")], theta=None))
+                if rng.random() < 0.5:
+                    body.append(dict(k="destroy", name=n))
+                return dict(k="block", body=body)
             elif kind == "HA":
                 refs, whole = [("fe", n, "ta", i) for i in range(3)], ("freg", n, "ta")
             else:
@@ -909,7 +916,7 @@ def views_ir(rng):
                 body.append(dict(k="measure", q=q, form=form, bit=b))
                 if b:
                     body.append(dict(k="echo_bit", bit=b))
-        if kind in ("HT", "HA", "H1") and rng.random() < 0.5:
+        if kind in ("HT", "HTS", "HA", "H1") and rng.random() < 0.5:
             body.append(dict(k="destroy", name=n))
         return dict(k="block", body=body)
     for _ in range(rng.randint(2, 4)):
@@ -1321,6 +1328,12 @@ class Model:
             # the user destructor runs first - x(this.dt); measure this.dt; - and the tracked record of dt,
             # taken when the object is released, reports that last measurement
             idx = inst.q["dt"]
+            early = self.peek_kind()
+            if early is not None and early["k"] == "tracked" and early.get("key") == "HDT.dt":
+                self.next_event(("tracked",))
+                self.counts["tracked"] += 1
+                self.report("C17", "tracked:outcome", "tracked HDT.dt recorded %r before the object's destructor had "
+                            "measured the qubit: the record does not show the last measurement" % early["outcome"])
             self.op_guard(idx, HELPER_LINE["HDT.dtor"], "destructor x")
             self.expect_sim("x", idx, what=" [HDT destructor]")
             self.state.gate("x", idx, 0.0)
